@@ -84,15 +84,6 @@ Fixpoint lpt_first (ws : list Z) (L : list Z) : list Z :=
 Definition lpt (ws : list Z) (k : nat) : list Z := lpt_first (sortZ_desc ws) (repeat 0 k).
 
 (* ---- checker: the implementation's output against the property ---- *)
-Fixpoint list_Zeqb (a b : list Z) : bool :=
-  match a, b with
-  | [], [] => true
-  | x :: a', y :: b' => (x =? y) && list_Zeqb a' b'
-  | _, _ => false
-  end.
-(* same multiset of numbers *)
-Definition same_multiset (a b : list Z) : bool := list_Zeqb (sortZ_desc a) (sortZ_desc b).
-
 Definition check_greedy (ws : list Z) (k : nat) (p : list N) : bool :=
   Nat.eqb (length p) (length ws) && ids_below k p
   && same_multiset (loads ws p k) (lpt ws k).
